@@ -358,8 +358,8 @@ def rule_r8(repo):
 
 def run(repo, check):
     from sa.rules import c01, c12
-    check.add(rule_r1(repo, check.tier))
-    check.add(rule_r2(repo))
+    check.run_rule(rule_r1, repo, check.tier)
+    check.run_rule(rule_r2, repo)
     r3 = c01.rule_r7(repo)
     r3.rule = 'C19.R3'
     for f in r3.findings:
@@ -382,9 +382,9 @@ def run(repo, check):
         r5.findings.extend(f for f in x.findings if f.key.startswith('BitString'))
     r5.require_floor(10)
     check.add(r5)
-    check.add(rule_r6(repo))
-    check.add(rule_r7(repo))
-    check.add(rule_r8(repo))
+    check.run_rule(rule_r6, repo)
+    check.run_rule(rule_r7, repo)
+    check.run_rule(rule_r8, repo)
     check.assumptions = ['bitstring is the trusted base: format strings "uint:n=v", "uintbe:n=v" (whole octets), "bool=v", "bin:n=s", '
                          '"bytes:n" and Bits(uint=|uintbe=|bytes=) mean what its documentation says; range refusal and read-past-end '
                          'errors are raised by bitstring and converted by the wrapper (R4)',
